@@ -204,3 +204,77 @@ theorem latestW_flatten (r : Root) (t : Tbl) : latestW (flatten r t) r = C01.lat
   unfold latestW C01.latest; rw [namesAt_flatten]
 
 end LanceModel.C42
+
+namespace LanceModel.C42
+open LanceModel.C01 (Path)
+open LanceModel.C33 (Name)
+
+/-! ### tags of a placed table -/
+
+theorem tagNameOf_tagRel (n : Name) : tagNameOf (tagRel n) = some n := by
+  have hs : ".json".toList.isSuffixOf (n ++ ".json".toList) = true := by
+    rw [List.isSuffixOf_iff_suffix]; exact List.suffix_append _ _
+  have hl : (n ++ ".json".toList).length - 5 = n.length := by
+    simp
+  simp only [tagNameOf, tagRel, true_and, hs, hl, List.take_left', if_true]
+
+theorem tagNameOf_relSegs (p : Path) : tagNameOf (relSegs p) = none := by
+  cases p with
+  | ver n => simp [relSegs, tagNameOf]
+  | file c id sub => cases c <;> simp [relSegs, clsTail, tagNameOf]
+
+theorem tagsAt_append (w1 w2 : World) (r : Root) : tagsAt (w1 ++ w2) r = tagsAt w1 r ++ tagsAt w2 r := by
+  unfold tagsAt; rw [List.filterMap_append]
+
+theorem tagsAt_place (r : Root) (s : C01.Store) : tagsAt (place r s) r = [] := by
+  unfold tagsAt place
+  rw [List.filterMap_map]
+  apply List.filterMap_eq_nil_iff.2
+  intro e _
+  simp [stripRoot_append, tagNameOf_relSegs]
+
+theorem tagsAt_placeTags (r : Root) (tags : List (Name × Nat)) : tagsAt (placeTags r tags) r = tags := by
+  induction tags with
+  | nil => rfl
+  | cons e t ih =>
+    unfold tagsAt placeTags at ih ⊢
+    simp only [List.map_cons, List.filterMap_cons, stripRoot_append, Option.bind_some, tagNameOf_tagRel]
+    rw [ih]
+
+/-- `Tags::list` of a placed table is its tag list -/
+theorem tagsAt_flatten (r : Root) (t : Tbl) : tagsAt (flatten r t) r = t.tags := by
+  unfold flatten
+  rw [tagsAt_append, tagsAt_place, tagsAt_placeTags, List.nil_append]
+
+theorem tagRel_inj (a b : Name) (h : tagRel a = tagRel b) : a = b := by
+  simp only [tagRel, List.cons.injEq, Seg.lit.injEq, and_true, true_and] at h
+  exact List.append_cancel_right h
+
+theorem getW_place_tagRel (r : Root) (s : C01.Store) (n : Name) : getW (place r s) (r ++ tagRel n) = none := by
+  apply getW_none_of_not_mem
+  intro e he heq
+  unfold place at he
+  obtain ⟨e0, _, rfl⟩ := List.mem_map.1 he
+  exact tagRel_ne_relSegs n e0.1 (List.append_cancel_left heq).symm
+
+theorem getW_placeTags (r : Root) (tags : List (Name × Nat)) (n : Name) :
+    getW (placeTags r tags) (r ++ tagRel n) = (tagLookup tags n).map WObj.tag := by
+  induction tags with
+  | nil => rfl
+  | cons e t ih =>
+    obtain ⟨k, v⟩ := e
+    show getW ((r ++ tagRel k, WObj.tag v) :: placeTags r t) (r ++ tagRel n) = _
+    rw [getW_cons]
+    simp only [tagLookup]
+    by_cases hk : k = n
+    · subst hk; simp
+    · have h1 : ¬ (r ++ tagRel k = r ++ tagRel n) := fun h => hk (tagRel_inj _ _ (List.append_cancel_left h))
+      simp only [h1, hk, if_false]; exact ih
+
+/-- `Tags::get` on a placed table -/
+theorem tagGet_flatten (r : Root) (t : Tbl) (n : Name) : tagGet (flatten r t) r n = tagLookup t.tags n := by
+  unfold tagGet flatten
+  rw [getW_append, getW_place_tagRel, getW_placeTags]
+  cases tagLookup t.tags n <;> rfl
+
+end LanceModel.C42
